@@ -232,13 +232,45 @@ def _queue_monitor(ctx, classes, fixed=None):
             ctx.count("queue_other_error_records")
 
 
+def _order_pass(ctx):
+    """Totality must not depend on earlier calls: every payload of a family (same kind and length) is decoded by
+    all its classes back to back in both class orders; the outcome class (value / declared error / other
+    exception) is compared with the one the class gave alone (vlib.dpt_gen.order_dependence)."""
+    import random
+
+    fams = G.families(G.concrete_dpt_classes())
+    for fi, key in enumerate(sorted(fams)):
+        if not ctx.mine(fi):
+            continue
+        name = f"{key[0]}/{key[1]}"
+        members = fams[key]
+        rng = random.Random(f"C07-order/{ctx.seed}/{name}")
+        payloads = G.family_payloads(members, rng, ctx.scale(200, 2000))
+        ctx.ev(len(payloads) * len(members) * 2)
+        ctx.count("interleaved_decodes", len(payloads) * len(members) * 2)
+        ctx.distinct(("order", name, len(members)))
+        for f in G.order_dependence(members, payloads, rng):
+            if f["op"] != "decode":
+                continue
+            iso, got = f["isolated"], f["interleaved"]
+            cls = f["cls"]
+            if got[0] == "crash":
+                ctx.violation(
+                    f"{G.owner(cls, 'from_knx')}-from_knx-raises-{got[1]}-after-calls-on-sibling-classes",
+                    {"cls": cls.__name__, "payload": G.describe(f["payload"]), "isolated": repr(iso)[:120], "called_just_before": f["after"]},
+                    f"{cls.__name__}.from_knx({f['payload']!r}) raised {got[1]} right after {', '.join(f['after'])}; alone it gives {iso!r}"[:300],
+                )
+            elif iso[0] != got[0]:
+                ctx.count("interleaved_outcome_kind_changed_recorded")  # value vs declared error: C08 judges values
+
+
 def run(ctx):
     ctx.rule = (
         "real from_knx of every concrete DPT class x payloads_for(class) (all DPTBinary, all arrays <= 2 octets as stated in level text, wrong "
         "lengths, per-position sweeps and random arrays of the own length); distinct = (class, payload kind, length, outcome class); "
         "queue monitor: one GA per class via group_address_dpt.set(), shuffled incoming GroupValueWrite/Response telegrams, join() per session"
     )
-    ctx.require("decoded_value", "rejected_CouldNotParseTelegram", "rejected_ConversionError", "queue_telegrams_processed", "queue_telegrams_decoded", "queue_clean_stops")
+    ctx.require("decoded_value", "rejected_CouldNotParseTelegram", "rejected_ConversionError", "interleaved_decodes", "queue_telegrams_processed", "queue_telegrams_decoded", "queue_clean_stops")
     classes = G.concrete_dpt_classes()
     ctx.extra["dpt_classes"] = len(classes)
     if len(classes) < 200:
@@ -265,6 +297,7 @@ def run(ctx):
     # the queue monitor runs in shard 0 (quick) / every shard on its own classes (thorough)
     mine = [cls for i, cls in enumerate(classes) if ctx.mine(i)]
     _queue_monitor(ctx, mine)
+    _order_pass(ctx)
 
 
 def replay(ctx, witness):
